@@ -17,7 +17,7 @@ import (
 // RecOpts are the switches of artifact recording.
 type RecOpts struct {
 	Algs       []string
-	Exclude    []string // only "*.<ext>", plain basenames and spelled-out relative file paths are supported by the reference
+	Exclude    []string // only "*.<ext>", plain basenames, spelled-out relative file paths and their negations ("!...") are supported by the reference
 	Strip      []string
 	Normalize  bool
 	FollowDirs bool
@@ -35,22 +35,28 @@ type recorder struct {
 
 func (r *recorder) excluded(path string) bool {
 	base := filepath.Base(path)
+	// gitignore semantics: the last pattern that matches decides; "!pattern" re-includes
+	ex := false
 	for _, p := range r.o.Exclude {
+		neg := strings.HasPrefix(p, "!")
+		if neg {
+			p = p[1:]
+		}
+		hit := false
 		if strings.HasPrefix(p, "*.") {
-			if strings.HasSuffix(base, p[1:]) {
-				return true
-			}
+			hit = strings.HasSuffix(base, p[1:])
 		} else if strings.Contains(p, "/") {
 			// a relative path of a file, spelled out: excludes exactly that walked path (decided on the
 			// path as walked, before any prefix is stripped)
-			if path == p {
-				return true
-			}
-		} else if base == p {
-			return true
+			hit = path == p
+		} else {
+			hit = base == p
+		}
+		if hit {
+			ex = !neg
 		}
 	}
-	return false
+	return ex
 }
 
 func digest(alg string, b []byte) (string, error) {
